@@ -48,6 +48,7 @@ def model_check(name, charts, prop, consts, timeout, workers=16, simulate=None, 
             edges.append(j)
     r['edges'] = edges
     r['viols'] = viols
+    r['json'] = None        # (memory: the parsed lines live on in edges / viols only)
     r['dir'] = d
     return r
 
